@@ -32,6 +32,8 @@ EnumContainers ==
          Un(<<PrimS("null"), PrimS("string")>>), Un(<<PrimS("string"), PrimS("bytes")>>), Un(<<PrimS("int"), PrimS("string")>>),
          Un(<<PrimS("long"), PrimS("int")>>), Un(<<PrimS("null"), PrimS("int"), PrimS("string")>>),
          Un(<<PrimS("null"), E3>>), Un(<<PrimS("double")>>), Un(<<RecA, RecB>>), Un(<<RecB, RecA>>), Un(<<PrimS("null"), RecA>>),
+         Un(<<PrimS("null"), PrimS("double")>>), Un(<<PrimS("null"), PrimS("bytes")>>), Un(<<PrimS("float"), PrimS("long")>>),
+         Mp(E3), Arr(PrimS("float")), Arr(PrimS("date")),
          Arr(Un(<<PrimS("null"), PrimS("long")>>)), Mp(Arr(PrimS("int"))), Arr(Arr(PrimS("long"))) }
 
 EnumRecords ==
@@ -49,6 +51,9 @@ EnumRecords ==
          R_(<<F("a", Arr(PrimS("int"))), F("b", Arr(PrimS("int")))>>),         \* repeated identical sub-schemas
          R_(<<F("a", Arr(PrimS("long"))), F("b", Arr(PrimS("int")))>>),
          R_(<<F("a", Arr(PrimS("int"))), F("b", Arr(PrimS("long")))>>),
+         R_(<<F("a", PrimS("int")), F("b", PrimS("string")), FDf("c", PrimS("long"), JInt(7))>>),
+         R_(<<F("a", Mp(PrimS("string")))>>), R_(<<F("a", Arr(PrimS("long")))>>), R_(<<F("a", Arr(PrimS("int")))>>),
+         R_(<<F("a", Un(<<PrimS("null"), PrimS("long")>>))>>),
          R_(<<F("a", E3), F("b", E3)>>) }                                       \* definition + (rendered) reference
 
 (* one named type used in two fields (definition + reference), in both orders; recursive shapes; pairs whose      *)
@@ -72,6 +77,11 @@ EnumNamed ==
     L_(PrimS("int"), Arr(RefS("ns.L"))),
     L_(PrimS("string"), Mp(RefS("ns.L"))),
     Rc("ns.L", <<F("v", PrimS("int"))>>),
+    \* two different nested named types of the same kind (a memo must not confuse them)
+    R_(<<F("a", I_(PrimS("long"))), F("b", Rc("ns.J", <<F("y", PrimS("string"))>>))>>),
+    R_(<<F("a", I_(PrimS("long"))), F("b", Rc("ns.J", <<F("y", PrimS("int"))>>))>>),
+    R_(<<F("a", E3), F("b", En("ns.E2", <<"A", "B", "C">>))>>),
+    R_(<<F("a", E3), F("b", En("ns.E2", <<"A", "B">>))>>),
     Un(<<PrimS("null"), L_(PrimS("int"), Un(<<PrimS("null"), RefS("ns.L")>>))>>) }
 
 EnumAll == EnumLeaves \cup EnumContainers \cup EnumRecords \cup EnumNamed
